@@ -128,11 +128,19 @@ struct Inst {
     size_t live() const { return model[0].size() + model[1].size() + model[2].size(); }
 };
 
+// a visitor may itself traverse the list (read-only): the outer traversal must be unaffected and the inner one complete
+struct NestedWalk { struct cstl_slist *l; VisitCtx *outer; size_t at; bool done; size_t inner_seen; int inner_rv; } g_nested;
+int count_cb(void *, void *priv) { (*(size_t *)priv)++; return 0; }
 int visit_cb(void *obj, void *priv)
 {
     VisitCtx *c = (VisitCtx *)priv;
     if (c->seen.size() >= c->limit) { c->overflow = true; return 77; }
     c->seen.push_back((Elem *)obj);
+    if (g_nested.l && g_nested.outer == c && !g_nested.done && c->seen.size() == g_nested.at) {
+        g_nested.done = true;
+        g_nested.inner_seen = 0;
+        g_nested.inner_rv = cstl_slist_foreach(g_nested.l, count_cb, &g_nested.inner_seen);     // library call from within the visitor
+    }
     if (c->stop_at && c->seen.size() == c->stop_at) return c->stop_val;
     return 0;
 }
@@ -171,7 +179,17 @@ void audit(Inst &in, int li, Obs *obs, const char *clause_pfx)
     VisitCtx vc{&in, {}, m.size() + 1, 0, 0, false};
     vc.limit = std::max(m.size(), sz) + 1;
     int rv;
+    bool nest = m.size() >= 2 && m.size() <= 2000 && (m.size() & 1) == 0;       // every other audit of a list with >= 2 elements
+    g_nested = NestedWalk{nest ? l : nullptr, &vc, 1 + m.size() / 2, false, 0, 0};
     LIB(rv = cstl_slist_foreach(l, visit_cb, &vc));
+    g_nested.l = nullptr;
+    if (nest) {
+        CNT("class.walk.nested");
+        char ncl[64];
+        snprintf(ncl, sizeof ncl, "%s.seq", clause_pfx);
+        CHECK(g_nested.done && g_nested.inner_rv == 0 && g_nested.inner_seen == m.size(), ncl,
+              "%s L%d a traversal started from inside a visit saw %zu of %zu elements (returned %d)", in.tag, li, g_nested.inner_seen, m.size(), g_nested.inner_rv);
+    }
     if (obs) {
         obs->push_back((long)sz);
         obs->push_back(fr ? ((Elem *)fr == (vc.seen.empty() ? nullptr : vc.seen.front()) ? 1 : 2) : 0);
